@@ -170,6 +170,7 @@ class Evaluator:
         self.self_inline = set(self_inline)
         self.known_len_fields = {}  # attribute name -> static length (verified separately by a rule)
         self.canon_kw_functions = set()  # dotted names of repo functions whose keyword calls are rewritten positionally
+        self.param_class = {}  # parameter name -> dotted repo class whose concrete methods are inlined when called on that parameter
         # private helpers (leading underscore) of the repo are inlined by default, so that extracting a helper does not
         # change the symbolic value; the ones rules treat as atoms are listed here
         self.auto_inline_private = True
@@ -1393,6 +1394,20 @@ class Evaluator:
                         s = self.eval_funcnode(mnode, fr.module, key, cls=fr.cls, args=(() if static else (fn[1],)) + tuple(args), kwargs=kwargs)
                         self.absorb(fr, s)
                         return s.ret
+                    finally:
+                        self._inlining.pop()
+        # --- method call on a parameter whose (repo dataclass) type a rule has declared: inlined with self := the parameter
+        if fn[0] == "attr" and fn[1][0] == "param" and fn[1][1] in self.param_class and depth < self.max_inline_depth:
+            look = self.p.lookup(self.param_class[fn[1][1]])
+            if look is not None and look[0] == "class":
+                mnode = self.p.class_member(look[1], fn[2], look[2])
+                key = self.param_class[fn[1][1]] + "." + fn[2]
+                abstract = isinstance(mnode, ast.FunctionDef) and any(isinstance(d, ast.Name) and d.id == "abstractmethod" for d in mnode.decorator_list)
+                if isinstance(mnode, ast.FunctionDef) and not abstract and key not in self._inlining:
+                    self._inlining.append(key)
+                    try:
+                        sm = self.eval_funcnode(mnode, look[2], key, cls=look[1].name, args=(fn[1],) + tuple(args), kwargs=kwargs)
+                        return sm.ret
                     finally:
                         self._inlining.pop()
         # --- method call on a constructed dataclass instance
